@@ -33,7 +33,8 @@ def run_case(case):
     rng = random.Random(case["rseed"])
     nt, method = case["noise_type"], case["method"]
     d, m, B = rng.choice([2, 3, 4]), rng.choice([2, 3]), rng.choice([1, 2, 5])
-    sde = zoo.NeuralSDE(d, m, nt, case["sde_type"], seed=rng.randrange(10 ** 6), gscale=0.7)
+    sde = zoo.NeuralSDE(d, m, nt, case["sde_type"], seed=rng.randrange(10 ** 6), gscale=0.7, batch_varying=True,
+                        signed=True)
     emb = zoo.GeneralEmbedding(sde)
     t0 = rng.choice([0.0, 1.5])
     ts = torch.tensor([t0, t0 + 0.31, t0 + 0.8])
